@@ -126,37 +126,65 @@ theorem dtText_spec (w : World) (inner : Bool) (e : CsEntry) (r : Regs) :
   unfold dtText dtHead dtTail fnOf
   rcases (frame_kinds_exhaustive e.kind).1 with h | h | h | h <;> simp only [h] <;> rfl
 
+/-- the lines of one frame: "arguments:" for FUNCTION / FUNP frames whose count is not the `-1` marker, "local variables:"
+    when it also has locals; `hidden` = the frame shows no variables at all -/
+def dtaLine (hidden : Bool) (f : Nat × Int × Int) : String :=
+  let k := f.1 % (frameMask + 1)
+  if (k = frameFunction ∨ k = frameFunp) ∧ hidden = false then
+    "F" ++ (if f.2.1 ≠ -1 then "A" else "") ++ (if f.2.2 > 0 ∧ f.2.1 ≠ -1 then "L" else "")
+  else "F"
+
+/-- what the specification says about a whole control stack: outer frames are never hidden, the innermost one (the
+    last) is hidden exactly when it is a FUNCTION / FUNP frame that is still being set up (`innerUnbuilt`) -/
+def dtaSpec (d : Int) : List (Nat × Int × Int) → List String
+  | [] => []
+  | [f] => [dtaLine (decide (f.2.1 ≠ -1) && innerUnbuilt f.2.1 f.2.2 d) f]
+  | f :: g :: rest => dtaLine false f :: dtaSpec d (g :: rest)
+
 /-- **dump_trace_args_lines**.  With `DUMP_WITH_ARGS | DUMP_WITH_LOCALVARS` every frame line is followed by an
 "arguments:" line exactly for FRAME_FUNCTION and FRAME_FUNP frames whose argument count is not the `-1` marker, and
-by a "local variables:" line exactly when that frame also has locals — the counters left behind by an EARLIER frame
-(they are variables of the whole function; FRAME_CATCH / FRAME_FAKE reset only `num_arg`) never leak into a later
-frame's lines, whatever the start values. -/
-theorem dump_trace_args_lines : ∀ (fs : List (Nat × Int × Int)) (st : Int × Int),
-    dtaGo fs st = fs.map fun f =>
-      let k := f.1 % (frameMask + 1)
-      if k = frameFunction ∨ k = frameFunp then
-        "F" ++ (if f.2.1 ≠ -1 then "A" else "") ++ (if f.2.2 > 0 ∧ f.2.1 ≠ -1 then "L" else "")
-      else "F"
+by a "local variables:" line exactly when that frame also has locals — except that the INNERMOST frame shows neither
+while it is still being set up (`fp + num_arg + num_local - 1 > sp`, transcribed).  The counters left behind by an
+EARLIER frame (they are variables of the whole function; FRAME_CATCH / FRAME_FAKE reset only `num_arg`) never leak into a
+later frame's lines, whatever the start values. -/
+theorem dump_trace_args_lines (d : Int) : ∀ (fs : List (Nat × Int × Int)) (st : Int × Int),
+    dtaGo d fs st = dtaSpec d fs
   | [], _ => rfl
   | (kind, na, nl) :: rest, (pa, pl) => by
     have hk := (frame_kinds_exhaustive kind).1
-    rcases hk with h | h | h | h
-    · simp only [dtaGo, h, List.map_cons, true_or, if_true]
-      rw [dump_trace_args_lines rest]
-    · have h0 : ¬ frameFunp = frameFunction := by decide
-      simp only [dtaGo, h, h0, List.map_cons, or_true, if_true, if_false]
-      rw [dump_trace_args_lines rest]
-    · have h0 : ¬ frameFake = frameFunction := by decide
-      have h1 : ¬ frameFake = frameFunp := by decide
-      simp only [dtaGo, h, h0, h1, List.map_cons, or_self, if_true, if_false]
-      rw [dump_trace_args_lines rest]
-      simp
-    · have h0 : ¬ frameCatch = frameFunction := by decide
-      have h1 : ¬ frameCatch = frameFunp := by decide
-      have h2 : ¬ frameCatch = frameFake := by decide
-      simp only [dtaGo, h, h0, h1, h2, List.map_cons, or_self, if_true, if_false]
-      rw [dump_trace_args_lines rest]
-      simp
+    have ih := fun st' => dump_trace_args_lines d rest st'
+    have h01 : ¬ frameFunp = frameFunction := by decide
+    have h02 : ¬ frameFake = frameFunction := by decide
+    have h03 : ¬ frameFake = frameFunp := by decide
+    have h04 : ¬ frameCatch = frameFunction := by decide
+    have h05 : ¬ frameCatch = frameFunp := by decide
+    have h06 : ¬ frameCatch = frameFake := by decide
+    cases rest with
+    | nil =>
+      rcases hk with h | h | h | h
+      · by_cases ha : na = -1 <;> cases hu : innerUnbuilt na nl d <;>
+          simp [dtaGo, dtaSpec, dtaLine, h, ha, hu]
+      · by_cases ha : na = -1 <;> cases hu : innerUnbuilt na nl d <;>
+          simp [dtaGo, dtaSpec, dtaLine, h, h01, ha, hu]
+      · simp [dtaGo, dtaSpec, dtaLine, h, h02, h03]
+      · simp [dtaGo, dtaSpec, dtaLine, h, h04, h05, h06]
+    | cons g rest' =>
+      have ih' := fun st' => ih st'
+      rw [dtaGo, dtaSpec]
+      rcases hk with h | h | h | h
+      · simp only [dtaLine, h, List.isEmpty_cons, Bool.false_eq_true, false_and, if_false, true_or, and_self, if_true]
+        rw [ih']
+      · simp only [dtaLine, h, h01, List.isEmpty_cons, Bool.false_eq_true, false_and, if_false, or_true, and_self, if_true]
+        rw [ih']
+      · simp only [dtaLine, h, h02, h03, List.isEmpty_cons, Bool.false_eq_true, false_and, if_false, or_self]
+        simp [ih']
+      · simp only [dtaLine, h, h04, h05, h06, List.isEmpty_cons, Bool.false_eq_true, false_and, if_false, or_self]
+        simp [ih']
+
+/-- the innermost frame of a stack overflow during frame set-up: `go` (1 argument, 2 locals) has only 1 slot between
+    `fp` and `sp` (d = 0): no variables are shown for it; with d = 2 they are -/
+example : dtaGo 0 [(frameFunction, 1, 0), (frameFunction, 1, 2)] (-1, -1) = ["FA", "F"] ∧
+    dtaGo 2 [(frameFunction, 1, 0), (frameFunction, 1, 2)] (-1, -1) = ["FA", "FAL"] := by decide
 
 /-- **dump_trace_ret_heart_beat** — the return value of `dump_trace` (used by `fatal` for "in heart beat of").
 When the driver itself calls `heart_beat` of object `ob` (outermost frame, opened from an empty control stack while no
@@ -180,7 +208,7 @@ example :
     dumpTrace w m = ["go()~at~?,~in~program~/m.c~(object~m)", "(catch)~at~?,~in~program~/m.c~(object~m)",
                      "(function)~at~?,~in~program~/m.c~(object~m)", "f1()~at~?,~in~program~/m.c~(object~m)"] ∧
     (svalueTrace w m).map (·.fn) = ["go", "CATCH", "<function>", "f1"] ∧
-    dumpTraceArgs m [(1, 0), (-1, -1), (1, 0), (1, 2)] = ["FA", "F", "FA", "FAL"] := by
+    dumpTraceArgs m [(1, 0), (-1, -1), (1, 0), (1, 2)] 5 = ["FA", "F", "FA", "FAL"] := by
   decide
 
 end NV.C18
